@@ -1,609 +1,602 @@
 // Harnesses over chitchat/src/state.rs (child module: private items are reachable).
+//
+// Conventions (DESIGN.md 2.3): one-byte ids and keys; container *shape* concrete (presence masks), every
+// version / watermark / status / instant symbolic; `PROPS` selects which property's assertions are compiled
+// into a query (a concrete static, folded by the solver front end), so a check only ever reports its own
+// property; every harness leaks what it built.
 use crate::types::KeyValueMutation;
+use crate::delta::verif_delta as rec;
+
+// ---------------------------------------------------------------------------------------------
+// property selection
+pub(crate) const P_C01: u32 = 1 << 1;
+pub(crate) const P_C02: u32 = 1 << 2;
+pub(crate) const P_C03: u32 = 1 << 3;
+pub(crate) const P_C04: u32 = 1 << 4;
+pub(crate) const P_C05: u32 = 1 << 5;
+pub(crate) const P_C06: u32 = 1 << 6;
+pub(crate) const P_C07: u32 = 1 << 7;
+pub(crate) const P_C14: u32 = 1 << 14;
+pub(crate) const P_C20: u32 = 1 << 20;
+pub(crate) const P_KF1: u32 = 1 << 30;
+static mut PROPS: u32 = 0;
+fn want(p: u32) -> bool { unsafe { PROPS & p != 0 } }
+fn select(p: u32) { unsafe { PROPS = p; } }
+
+// ---------------------------------------------------------------------------------------------
+// builders
+const KEYS: [&str; 3] = ["a", "b", "c"];
+const T0: Instant = Instant { secs: 0, nanos: 0 };
 
 /// one-byte node id: id comparisons are memcmp loops unwound at every map lookup
 fn xid() -> ChitchatId { ChitchatId::new("x".to_string(), 0, ([127, 0, 0, 1], 1).into()) }
-fn empty_state() -> NodeState { NodeState::new(xid(), Listeners::default()) }
-
+fn yid() -> ChitchatId { ChitchatId::new("y".to_string(), 0, ([127, 0, 0, 1], 2).into()) }
+fn empty_state_for(id: ChitchatId) -> NodeState { NodeState::new(id, Listeners::default()) }
+fn empty_state() -> NodeState { empty_state_for(xid()) }
 fn bare_state(gc: u64, max: u64) -> NodeState {
     let mut ns = empty_state();
     ns.max_version = max;
     ns.last_gc_version = gc;
     ns
 }
+fn status_of(code: u8, t: Instant) -> DeletionStatus { DeletionStatusMutation::try_from(code).unwrap().into_status(t) }
+fn code_of(st: &DeletionStatus) -> u8 { let m: DeletionStatusMutation = (*st).into(); m as u8 }
+fn any_code() -> u8 { let c: u8 = kani::any(); kani::assume(c < 3); c }
 
-#[kani::proof]
-#[kani::unwind(2)]
-fn smoke_check_delta_status() {
-    let r = bare_state(kani::any(), kani::any());
-    let nd = NodeDelta {
-        chitchat_id: r.chitchat_id.clone(),
-        from_version_excluded: kani::any(),
-        last_gc_version: kani::any(),
-        key_values: Vec::new(),
-        max_version: kani::any(),
-    };
-    let st = r.check_delta_status(&nd);
-    if st == DeltaStatus::Apply { assert!(nd.max_version > r.max_version); }
-    kani::cover!(st == DeltaStatus::ApplyAfterReset, "reset reachable");
-    std::mem::forget(r); std::mem::forget(nd);
-}
+/// Plain-old-data view of one copy of a member's state over KEYS (the reference side of every oracle).
+#[derive(Clone, Copy)]
+struct E { present: bool, version: u64, status: u8 }
+#[derive(Clone, Copy)]
+struct Copy3 { e: [E; 3], gc: u64, max: u64 }
 
-// ---- T-cut stubs for the byte-level stream writer (truncation model: any op may be the first refused)
-/// ops accepted before the first refusal; harness-set, concrete => the truncation point is a *shape*, not a solver choice
-static mut CUT_AFTER: usize = usize::MAX;
-static mut OPS_SEEN: usize = 0;
-fn stub_upper<S: crate::serialize::Serializable + ?Sized>(_w: &crate::serialize::CompressedStreamWriter, _item: &S) -> usize {
-    unsafe { OPS_SEEN += 1; if OPS_SEEN > CUT_AFTER { usize::MAX } else { 0 } }
-}
-fn stub_append<S: crate::serialize::Serializable + ?Sized>(_w: &mut crate::serialize::CompressedStreamWriter, _item: &S) {}
-fn stub_finish(w: crate::serialize::CompressedStreamWriter) -> Vec<u8> { std::mem::forget(w); Vec::new() }
-
-const KEYS: [&str; 3] = ["a", "b", "c"];
-
-fn any_status(now: Instant) -> DeletionStatus {
-    let c: u8 = kani::any();
-    kani::assume(c < 3);
-    DeletionStatusMutation::try_from(c).unwrap().into_status(now)
-}
-
-/// NodeState over keys KEYS with concrete presence mask; versions 1..=vmax distinct, statuses symbolic,
-/// max_version >= every version, watermark arbitrary in 0..=vmax (also above max_version).
-fn shaped_state(mask: u8, vmax: u64) -> NodeState {
-    let mut ns = empty_state();
-    let now = Instant { secs: 0, nanos: 0 };
-    let mut maxv = 0u64;
-    let mut seen = [0u64; 3];
-    for i in 0..3 {
-        if mask & (1 << i) != 0 {
-            let version: u64 = kani::any();
-            kani::assume(version >= 1 && version <= vmax);
-            for j in 0..i { kani::assume(seen[j] != version); }
-            seen[i] = version;
-            let st = any_status(now);
-            if version > maxv { maxv = version; }
-            ns.key_values.insert(KEYS[i].to_string(), VersionedValue { value: String::new(), version, status: st });
+/// well-formedness every reachable copy has: versions 1..=max, pairwise distinct
+fn wf(c: &Copy3) -> bool {
+    let mut ok = true;
+    let mut i = 0;
+    while i < 3 {
+        if c.e[i].present {
+            ok = ok && c.e[i].version >= 1 && c.e[i].version <= c.max && c.e[i].status < 3;
+            let mut j = 0;
+            while j < i { if c.e[j].present { ok = ok && c.e[j].version != c.e[i].version; } j += 1; }
         }
+        i += 1;
     }
-    let mv: u64 = kani::any(); kani::assume(mv <= vmax && mv >= maxv); ns.max_version = mv;
-    let gc: u64 = kani::any(); kani::assume(gc <= vmax); ns.last_gc_version = gc;
+    ok
+}
+fn any_copy3(mask_known: Option<u8>, vmax: u64) -> Copy3 {
+    let mut e = [E { present: false, version: 0, status: 0 }; 3];
+    let mut i = 0;
+    while i < 3 {
+        let present = match mask_known { Some(m) => m & (1 << i) != 0, None => kani::any() };
+        if present { e[i] = E { present: true, version: kani::any(), status: any_code() }; }
+        i += 1;
+    }
+    let c = Copy3 { e, gc: kani::any(), max: kani::any() };
+    kani::assume(c.gc <= vmax && c.max <= vmax);
+    kani::assume(wf(&c));
+    c
+}
+/// real NodeState holding exactly `c` (tombstone instants `t`)
+fn build_state(c: &Copy3, t: Instant) -> NodeState {
+    let mut ns = empty_state();
+    let mut i = 0;
+    while i < 3 {
+        if c.e[i].present {
+            ns.key_values.insert(KEYS[i].to_string(), VersionedValue { value: String::new(), version: c.e[i].version, status: status_of(c.e[i].status, t) });
+        }
+        i += 1;
+    }
+    ns.max_version = c.max;
+    ns.last_gc_version = c.gc;
     ns
 }
-
-fn sender_delta(sender_copy: NodeState, recv: &NodeState) -> Delta {
-    let id = sender_copy.chitchat_id.clone();
-    let (tx, rx) = watch::channel(HashSet::default());
-    std::mem::forget(tx);
-    let mut cs = ClusterState::with_seed_addrs(rx);
-    cs.node_states.insert(id.clone(), sender_copy);
-    let mut digest = Digest::default();
-    digest.node_digests.insert(id, recv.digest());
-    let sched: HashSet<&ChitchatId> = HashSet::default();
-    let delta = cs.compute_partial_delta_respecting_mtu(&digest, 65_000, &sched);
-    std::mem::forget(cs); std::mem::forget(digest); std::mem::forget(sched);
-    delta
-}
-
-fn run_pair_probe(smask: u8, rmask: u8, vmax: u64) {
-    unsafe { crate::vstd::randmodel::SINGLE_MEMBER = true; }
-    let s = shaped_state(smask, vmax);
-    let mut r = shaped_state(rmask, vmax);
-    let (s_gc, s_max) = (s.last_gc_version, s.max_version);
-    let (r_gc, r_max) = (r.last_gc_version, r.max_version);
-    let mut delta = sender_delta(s, &r);
-    assert!(delta.node_deltas.len() <= 1);
-    if delta.node_deltas.len() == 1 { assert!(s_max > r_max); }
-    if let Some(nd) = delta.node_deltas.pop() {
-        let expect_reset = r_gc < s_gc && r_max < s_gc;
-        let truncated_after_header = nd.key_values.is_empty() && nd.max_version == 0;
-        let before = r.monotonic_property();
-        let st = r.apply_delta(nd, Instant { secs: 0, nanos: 0 });
-        if !truncated_after_header {
-            assert!(st != DeltaStatus::Reject);
-            assert!(r.monotonic_property() > before);
-        }
-        assert!((st == DeltaStatus::ApplyAfterReset) == expect_reset || (truncated_after_header && !expect_reset));
-        kani::cover!(st == DeltaStatus::ApplyAfterReset, "reset");
-        kani::cover!(st == DeltaStatus::Apply, "apply");
+/// read a real NodeState back into the POD view (through the public read API)
+fn snapshot(ns: &NodeState) -> Copy3 {
+    let mut e = [E { present: false, version: 0, status: 0 }; 3];
+    let mut i = 0;
+    while i < 3 {
+        if let Some(vv) = ns.get_versioned(KEYS[i]) { e[i] = E { present: true, version: vv.version, status: code_of(&vv.status) }; }
+        i += 1;
     }
-    std::mem::forget(delta);
-    std::mem::forget(r);
+    Copy3 { e, gc: ns.last_gc_version(), max: ns.max_version() }
 }
-
-#[kani::proof]
-#[kani::unwind(5)]
-#[kani::stub(crate::listener::Listeners::trigger_event, noop_trigger)]
-#[kani::stub(crate::serialize::CompressedStreamWriter::serialized_len_upperbound_after, stub_upper)]
-#[kani::stub(crate::serialize::CompressedStreamWriter::append, stub_append)]
-#[kani::stub(crate::serialize::CompressedStreamWriter::finish, stub_finish)]
-fn probe_pair_000_000() { run_pair_probe(0, 0, 7); }
-
-#[kani::proof]
-#[kani::unwind(5)]
-#[kani::stub(crate::listener::Listeners::trigger_event, noop_trigger)]
-#[kani::stub(crate::serialize::CompressedStreamWriter::serialized_len_upperbound_after, stub_upper)]
-#[kani::stub(crate::serialize::CompressedStreamWriter::append, stub_append)]
-#[kani::stub(crate::serialize::CompressedStreamWriter::finish, stub_finish)]
-fn probe_pair_011_001() { run_pair_probe(0b011, 0b001, 7); }
-
-#[kani::proof]
-#[kani::unwind(5)]
-#[kani::stub(crate::listener::Listeners::trigger_event, noop_trigger)]
-#[kani::stub(crate::serialize::CompressedStreamWriter::serialized_len_upperbound_after, stub_upper)]
-#[kani::stub(crate::serialize::CompressedStreamWriter::append, stub_append)]
-#[kani::stub(crate::serialize::CompressedStreamWriter::finish, stub_finish)]
-fn probe_pair_001_001() { run_pair_probe(0b001, 0b001, 7); }
-
-#[kani::proof]
-#[kani::unwind(5)]
-#[kani::stub(crate::listener::Listeners::trigger_event, noop_trigger)]
-#[kani::stub(crate::serialize::CompressedStreamWriter::serialized_len_upperbound_after, stub_upper)]
-#[kani::stub(crate::serialize::CompressedStreamWriter::append, stub_append)]
-#[kani::stub(crate::serialize::CompressedStreamWriter::finish, stub_finish)]
-fn probe_sender_only_011() {
-    unsafe { crate::vstd::randmodel::SINGLE_MEMBER = true; }
-    let s = shaped_state(0b011, 7);
-    let r = shaped_state(0, 7);
-    let s_max = s.max_version; let r_max = r.max_version;
-    let delta = sender_delta(s, &r);
-    assert!(delta.node_deltas.len() <= 1);
-    if delta.node_deltas.len() == 1 { assert!(s_max > r_max); }
-    std::mem::forget(delta); std::mem::forget(r);
-}
-
-#[kani::proof]
-#[kani::unwind(5)]
-#[kani::stub(crate::listener::Listeners::trigger_event, noop_trigger)]
-fn probe_apply_only_001() {
-    let mut r = shaped_state(0b001, 7);
-    let before = r.monotonic_property();
-    let mut kvs = Vec::new();
-    let v1: u64 = kani::any(); let v2: u64 = kani::any();
-    kani::assume(v1 >= 1 && v1 < v2 && v2 <= 7);
-    kvs.push(KeyValueMutation { key: "a".to_string(), value: String::new(), version: v1, status: DeletionStatusMutation::Set });
-    kvs.push(KeyValueMutation { key: "b".to_string(), value: String::new(), version: v2, status: DeletionStatusMutation::Delete });
-    let nd = NodeDelta { chitchat_id: xid(), from_version_excluded: kani::any(), last_gc_version: kani::any(), key_values: kvs, max_version: v2 };
-    let st = r.apply_delta(nd, Instant { secs: 0, nanos: 0 });
-    assert!(r.monotonic_property() >= before);
-    std::mem::forget(r);
-}
-
-fn mk_cs_one(sender_copy: NodeState) -> ClusterState {
-    let id = sender_copy.chitchat_id.clone();
-    let (tx, rx) = watch::channel(HashSet::default());
-    std::mem::forget(tx);
-    let mut cs = ClusterState::with_seed_addrs(rx);
-    cs.node_states.insert(id, sender_copy);
-    cs
-}
-#[kani::proof]
-#[kani::unwind(4)]
-fn m1_digest() {
-    let s = shaped_state(0, 7);
-    let cs = mk_cs_one(s);
-    let sched: HashSet<&ChitchatId> = HashSet::default();
-    let d = cs.compute_digest(&sched);
-    assert!(d.node_digests.len() == 1);
-    std::mem::forget(cs); std::mem::forget(d); std::mem::forget(sched);
-}
-#[kani::proof]
-#[kani::unwind(4)]
-fn m2_stale() {
-    unsafe { crate::vstd::randmodel::SINGLE_MEMBER = true; }
-    let s = shaped_state(0, 7);
-    let id = xid();
-    let mut sn = SortedStaleNodes::default();
-    let from: u64 = kani::any();
-    sn.offer(&id, &s, from);
-    let mut n = 0;
-    for x in sn.into_iter() { n += 1; assert!(x.from_version_excluded == from); }
-    assert!(n <= 1);
-    std::mem::forget(s);
-}
-#[kani::proof]
-#[kani::unwind(4)]
-#[kani::stub(crate::serialize::CompressedStreamWriter::serialized_len_upperbound_after, stub_upper)]
-#[kani::stub(crate::serialize::CompressedStreamWriter::append, stub_append)]
-#[kani::stub(crate::serialize::CompressedStreamWriter::finish, stub_finish)]
-fn m3_serializer() {
-    let mut ds = DeltaSerializer::with_mtu(65_000);
-    let ok = ds.try_add_node(xid(), kani::any(), kani::any());
-    if ok {
-        let v: u64 = kani::any();
-        kani::assume(v > 0);
-        let ok2 = ds.try_add_kv("a", VersionedValue { value: String::new(), version: v, status: DeletionStatus::Set });
-    }
-    let d = ds.finish();
-    assert!(d.node_deltas.len() <= 1);
-    std::mem::forget(d);
-}
-#[kani::proof]
-#[kani::unwind(4)]
-#[kani::stub(crate::listener::Listeners::trigger_event, noop_trigger)]
-#[kani::stub(crate::serialize::CompressedStreamWriter::serialized_len_upperbound_after, stub_upper)]
-#[kani::stub(crate::serialize::CompressedStreamWriter::append, stub_append)]
-#[kani::stub(crate::serialize::CompressedStreamWriter::finish, stub_finish)]
-fn m4_sender_000() {
-    unsafe { crate::vstd::randmodel::SINGLE_MEMBER = true; }
-    let s = shaped_state(0, 7);
-    let r = shaped_state(0, 7);
-    let s_max = s.max_version; let r_max = r.max_version;
-    let delta = sender_delta(s, &r);
-    assert!(delta.node_deltas.len() <= 1);
-    if delta.node_deltas.len() == 1 { assert!(s_max > r_max); }
-    std::mem::forget(delta); std::mem::forget(r);
-}
-#[kani::proof]
-#[kani::unwind(4)]
-fn m2a_offer_only() {
-    let s = shaped_state(0, 7);
-    let id = xid();
-    let mut sn = SortedStaleNodes::default();
-    let from: u64 = kani::any();
-    sn.offer(&id, &s, from);
-    assert!(sn.stale_nodes.len() <= 1);
-    std::mem::forget(sn); std::mem::forget(s);
-}
-#[kani::proof]
-#[kani::unwind(4)]
-fn m2b_into_values() {
-    let s = shaped_state(0, 7);
-    let id = xid();
-    let mut sn = SortedStaleNodes::default();
-    let from: u64 = kani::any();
-    sn.offer(&id, &s, from);
-    let mut n = 0;
-    for v in sn.stale_nodes.into_values() { n += v.len(); std::mem::forget(v); }
-    assert!(n <= 1);
-    std::mem::forget(s);
-}
-#[kani::proof]
-#[kani::unwind(4)]
-fn m2c_vec_iter() {
-    let s = shaped_state(0, 7);
-    let id = xid();
-    let mut v: Vec<StaleNode> = Vec::new();
-    if kani::any() { v.push(StaleNode { chitchat_id: &id, node_state: &s, from_version_excluded: kani::any() }); }
-    let mut n = 0;
-    for x in v.into_iter() { n += 1; }
-    assert!(n <= 1);
-    std::mem::forget(s);
-}
-fn m2_setup<'a>(id: &'a ChitchatId, s: &'a NodeState) -> SortedStaleNodes<'a> {
-    let mut sn = SortedStaleNodes::default();
-    let from: u64 = kani::any();
-    sn.offer(id, s, from);
-    sn
-}
-#[kani::proof]
-#[kani::unwind(4)]
-fn m2_a_rev() {
-    let s = shaped_state(0, 7); let id = xid();
-    let sn = m2_setup(&id, &s);
-    let mut n = 0;
-    for v in sn.stale_nodes.into_values().rev() { n += v.len(); std::mem::forget(v); }
-    assert!(n <= 1);
-    std::mem::forget(s);
-}
-#[kani::proof]
-#[kani::unwind(4)]
-fn m2_b_flat() {
-    let s = shaped_state(0, 7); let id = xid();
-    let sn = m2_setup(&id, &s);
-    let mut n = 0;
-    for x in sn.stale_nodes.into_values().flat_map(|v| v.into_iter()) { n += 1; }
-    assert!(n <= 1);
-    std::mem::forget(s);
-}
-#[kani::proof]
-#[kani::unwind(4)]
-fn m2_c_flat_forget() {
-    let s = shaped_state(0, 7); let id = xid();
-    let sn = m2_setup(&id, &s);
-    let mut n = 0;
-    let mut it = sn.stale_nodes.into_values().flat_map(|v| v.into_iter());
-    if let Some(x) = it.next() { n += 1; }
-    if let Some(x) = it.next() { n += 1; }
-    assert!(n <= 1);
-    std::mem::forget(it);
-    std::mem::forget(s);
-}
-fn t_slot<'a>(id: &'a ChitchatId, s: &'a NodeState) -> Option<Vec<StaleNode<'a>>> {
-    let mut slot: Option<Vec<StaleNode>> = None;
-    if kani::any() { let mut v = Vec::new(); v.push(StaleNode { chitchat_id: id, node_state: s, from_version_excluded: kani::any() }); slot = Some(v); }
-    slot
-}
-#[kani::proof]
-#[kani::unwind(4)]
-fn t1_slot_into_iter() {
-    let s = shaped_state(0, 7); let id = xid();
-    let mut slot = t_slot(&id, &s);
-    let mut n = 0;
-    if let Some(v) = slot.take() { for x in v.into_iter() { n += 1; } }
-    assert!(n <= 1);
-    std::mem::forget(s);
-}
-#[kani::proof]
-#[kani::unwind(4)]
-fn t2_slot_pop() {
-    let s = shaped_state(0, 7); let id = xid();
-    let mut slot = t_slot(&id, &s);
-    let mut n = 0;
-    if let Some(mut v) = slot.take() { while let Some(x) = v.pop() { n += 1; } std::mem::forget(v); }
-    assert!(n <= 1);
-    std::mem::forget(s);
-}
-#[kani::proof]
-#[kani::unwind(4)]
-fn t3_slot_next_forget() {
-    let s = shaped_state(0, 7); let id = xid();
-    let mut slot = t_slot(&id, &s);
-    let mut n = 0;
-    if let Some(v) = slot.take() { let mut it = v.into_iter(); if it.next().is_some() { n += 1; } if it.next().is_some() { n += 1; } std::mem::forget(it); }
-    assert!(n <= 1);
-    std::mem::forget(s);
-}
-#[kani::proof]
-#[kani::unwind(4)]
-fn t4_model_map_vec() {
-    let s = shaped_state(0, 7); let id = xid();
-    let mut m: BTreeMap<u64, Vec<StaleNode>> = BTreeMap::new();
-    if kani::any() { m.entry(kani::any()).or_default().push(StaleNode { chitchat_id: &id, node_state: &s, from_version_excluded: kani::any() }); }
-    let mut n = 0;
-    for v in m.into_values() { for x in v.into_iter() { n += 1; } }
-    assert!(n <= 1);
-    std::mem::forget(s);
-}
-#[kani::proof]
-#[kani::unwind(4)]
-fn t5_model_map_vec_nobranch() {
-    let s = shaped_state(0, 7); let id = xid();
-    let mut m: BTreeMap<u64, Vec<StaleNode>> = BTreeMap::new();
-    m.entry(kani::any()).or_default().push(StaleNode { chitchat_id: &id, node_state: &s, from_version_excluded: kani::any() });
-    let mut n = 0;
-    for v in m.into_values() { for x in v.into_iter() { n += 1; } }
-    assert!(n <= 1);
-    std::mem::forget(s);
-}
-#[kani::proof]
-#[kani::unwind(4)]
-fn t6_model_map_staleness_key() {
-    let s = shaped_state(0, 7); let id = xid();
-    let mut m: BTreeMap<Staleness, Vec<StaleNode>> = BTreeMap::new();
-    if kani::any() {
-        let k = Staleness { is_unknown: kani::any(), max_version: kani::any(), num_stale_key_values: kani::any() };
-        m.entry(k).or_default().push(StaleNode { chitchat_id: &id, node_state: &s, from_version_excluded: kani::any() });
-    }
-    let mut n = 0;
-    for v in m.into_values() { for x in v.into_iter() { n += 1; } }
-    assert!(n <= 1);
-    std::mem::forget(s);
-}
-#[kani::proof]
-#[kani::unwind(4)]
-fn t7_offer_manual_loops() {
-    let s = shaped_state(0, 7); let id = xid();
-    let sn = m2_setup(&id, &s);
-    let mut n = 0;
-    for v in sn.stale_nodes.into_values() { for x in v.into_iter() { n += 1; } }
-    assert!(n <= 1);
-    std::mem::forget(s);
-}
-macro_rules! t6_variant { ($name:ident, $kty:ty, $k:expr) => {
-#[kani::proof]
-#[kani::unwind(4)]
-fn $name() {
-    let s = shaped_state(0, 7); let id = xid();
-    let mut m: BTreeMap<$kty, Vec<StaleNode>> = BTreeMap::new();
-    if kani::any() {
-        let k: $kty = $k;
-        m.entry(k).or_default().push(StaleNode { chitchat_id: &id, node_state: &s, from_version_excluded: kani::any() });
-    }
-    let mut n = 0;
-    for v in m.into_values() { for x in v.into_iter() { n += 1; } }
-    assert!(n <= 1);
-    std::mem::forget(s);
-}}}
-t6_variant!(t6_bool, bool, kani::any());
-t6_variant!(t6_tuple, (u64, usize), (kani::any(), kani::any()));
-t6_variant!(t6_stale_concrete_bool, Staleness, Staleness { is_unknown: false, max_version: kani::any(), num_stale_key_values: kani::any() });
-t6_variant!(t6_u8, u8, kani::any());
-#[derive(Clone, Copy, PartialEq, Eq, PartialOrd, Ord)] struct K3 { a: u64, b: u64, c: usize }
-#[derive(Clone, Copy, PartialEq, Eq, PartialOrd, Ord)] struct KB { a: u64, b: bool }
-#[derive(Clone, Copy, PartialEq, Eq, PartialOrd, Ord)] struct KB2 { a: u64, b: u8 }
-t6_variant!(t6_k3, K3, K3 { a: kani::any(), b: kani::any(), c: kani::any() });
-t6_variant!(t6_kb, KB, KB { a: kani::any(), b: false });
-t6_variant!(t6_kb2, KB2, KB2 { a: kani::any(), b: 0 });
-#[kani::proof]
-#[kani::unwind(4)]
-#[kani::stub(crate::listener::Listeners::trigger_event, noop_trigger)]
-#[kani::stub(crate::serialize::CompressedStreamWriter::serialized_len_upperbound_after, stub_upper)]
-#[kani::stub(crate::serialize::CompressedStreamWriter::append, stub_append)]
-#[kani::stub(crate::serialize::CompressedStreamWriter::finish, stub_finish)]
-fn m5_split_000() {
-    // the body of compute_partial_delta_respecting_mtu re-assembled from the real pieces, single member
-    unsafe { crate::vstd::randmodel::SINGLE_MEMBER = true; }
-    let s = shaped_state(0, 7);
-    let r = shaped_state(0, 7);
-    let id = xid();
-    let mut digest = Digest::default();
-    digest.node_digests.insert(id.clone(), r.digest());
-    let (dgc, dmax) = digest.node_digests.get(&id).map(|d| (d.last_gc_version, d.max_version)).unwrap_or((0, 0));
-    let mut sn = SortedStaleNodes::default();
-    if s.max_version > dmax {
-        let should_reset = dgc < s.last_gc_version && dmax < s.last_gc_version;
-        let from = if should_reset { 0 } else { dmax };
-        sn.offer(&id, &s, from);
-    }
-    let mut ds = DeltaSerializer::with_mtu(65_000);
-    for stale_node in sn.into_iter() {
-        if !ds.try_add_node(stale_node.chitchat_id.clone(), stale_node.node_state.last_gc_version, stale_node.from_version_excluded) { break; }
-        let mut added = false;
-        for (key, vv) in stale_node.stale_key_values() {
-            if !ds.try_add_kv(key, vv.clone()) { break; }
-            added = true;
-        }
-        if !added { let _ = ds.try_set_max_version(stale_node.node_state.max_version); }
-    }
-    let delta = ds.finish();
-    assert!(delta.node_deltas.len() <= 1);
-    std::mem::forget(delta); std::mem::forget(r); std::mem::forget(digest); std::mem::forget(s);
+fn shaped_state(mask: u8, vmax: u64) -> (NodeState, Copy3) {
+    let c = any_copy3(Some(mask), vmax);
+    (build_state(&c, T0), c)
 }
 
 // ---------------------------------------------------------------------------------------------
-// Pair step with the delta recorder (see h_delta.rs): real compute_partial_delta_respecting_mtu on the sender
-// copy, truncated anywhere, real NodeState::apply_delta on the receiver copy.
-use crate::delta::verif_delta as rec;
+// reference model of the sender (the contract between state.rs' delta computation and its consumers)
+#[derive(Clone, Copy)]
+struct SpecKv { key: usize, version: u64, status: u8 }
+#[derive(Clone, Copy)]
+struct SpecDelta { present: bool, from: u64, gc: u64, kv: [SpecKv; 3], n_kv: usize, max: u64, reset: bool, n_stale: usize }
 
-fn rec_reset(cut: usize) { unsafe { rec::REC_N = 0; rec::REC_CALLS = 0; rec::REC_CUT = cut; rec::REC_FINISHED = false; } }
-
-fn key_string(b: u8) -> String { let mut s = String::with_capacity(1); s.push(b as char); s }
-
-/// NodeDelta for member x rebuilt from the recorded ops (what the real DeltaBuilder would group them into).
-fn recorded_node_delta() -> Option<NodeDelta> {
-    let n = unsafe { rec::REC_N };
-    if n == 0 { return None; }
-    let ops = unsafe { rec::REC };
-    assert!(ops[0].kind == rec::REC_NODE, "first op is a member header");
+/// What an honest sender holding copy `s` emits for a peer digest (dgc, dmax) when exactly `accepted` ops fit
+/// (header included). Stale entries = version > from, ascending by version; an empty stale list is replaced by
+/// one SetMaxVersion(s.max) op.
+fn spec_delta(s: &Copy3, dgc: u64, dmax: u64, accepted: usize) -> SpecDelta {
+    let none = SpecDelta { present: false, from: 0, gc: 0, kv: [SpecKv { key: 0, version: 0, status: 0 }; 3], n_kv: 0, max: 0, reset: false, n_stale: 0 };
+    if s.max <= dmax { return none; }
+    let reset = dgc < s.gc && dmax < s.gc;
+    let from = if reset { 0 } else { dmax };
+    // selection sort of the stale entries by version (versions are distinct)
+    let mut kv = none.kv;
+    let mut used = [false; 3];
+    let mut n = 0;
+    let mut round = 0;
+    while round < 3 {
+        let mut best: Option<usize> = None;
+        let mut i = 0;
+        while i < 3 {
+            if s.e[i].present && s.e[i].version > from && !used[i] {
+                match best { None => best = Some(i), Some(b) => if s.e[i].version < s.e[b].version { best = Some(i); } }
+            }
+            i += 1;
+        }
+        if let Some(b) = best { used[b] = true; kv[n] = SpecKv { key: b, version: s.e[b].version, status: s.e[b].status }; n += 1; }
+        round += 1;
+    }
+    if accepted == 0 { return none; }
+    let mut d = SpecDelta { present: true, from, gc: s.gc, kv, n_kv: 0, max: 0, reset, n_stale: n };
+    if n == 0 {
+        if accepted >= 2 { d.max = s.max; }
+    } else {
+        let k = if accepted - 1 < n { accepted - 1 } else { n };
+        d.n_kv = k;
+        if k > 0 { d.max = kv[k - 1].version; }
+    }
+    d
+}
+fn key_string(i: usize) -> String { let mut s = String::with_capacity(1); s.push((b'a' + i as u8) as char); s }
+fn node_delta_of(d: &SpecDelta) -> NodeDelta {
     let mut kvs: Vec<KeyValueMutation> = Vec::with_capacity(3);
-    let mut n_kv = 0usize;
-    let mut max_version = 0u64;
-    let mut i = 1;
-    while i <= 3 {
-        let op = ops[i];
-        let st = if op.status < 3 { DeletionStatusMutation::try_from(op.status).unwrap() } else { DeletionStatusMutation::Set };
-        kvs.push(KeyValueMutation { key: key_string(op.key0), value: String::new(), version: op.version, status: st });
-        if i < n && op.kind == rec::REC_KV { assert!(n_kv == i - 1, "key-values are contiguous after the header"); n_kv = i; max_version = op.version; }
+    let mut i = 0;
+    while i < 3 {
+        kvs.push(KeyValueMutation { key: key_string(d.kv[i].key), value: String::new(), version: d.kv[i].version, status: DeletionStatusMutation::try_from(d.kv[i].status).unwrap() });
         i += 1;
     }
-    if n >= 2 && ops[1].kind == rec::REC_SETMAX { assert!(n == 2, "SetMaxVersion is the only op of its member"); max_version = ops[1].version; }
-    if n >= 2 && ops[1].kind == rec::REC_KV { let mut j = 1; while j < 5 { if j < n { assert!(ops[j].kind == rec::REC_KV, "only key-values follow a key-value"); } j += 1; } }
-    unsafe { kvs.set_len(n_kv); }
-    Some(NodeDelta { chitchat_id: xid(), from_version_excluded: ops[0].from, last_gc_version: ops[0].gc, key_values: kvs, max_version })
+    unsafe { kvs.set_len(d.n_kv); }
+    NodeDelta { chitchat_id: xid(), from_version_excluded: d.from, last_gc_version: d.gc, key_values: kvs, max_version: d.max }
 }
 
-fn run_pair_rec(smask: u8, rmask: u8, vmax: u64) {
-    unsafe { crate::vstd::randmodel::SINGLE_MEMBER = true; }
-    let cut: usize = kani::any();
-    rec_reset(cut);
-    let s = shaped_state(smask, vmax);
-    let mut r = shaped_state(rmask, vmax);
-    let (s_gc, s_max) = (s.last_gc_version, s.max_version);
-    let (r_gc, r_max) = (r.last_gc_version, r.max_version);
-    let d = sender_delta(s, &r);
-    std::mem::forget(d);
-    let sender_ahead = s_max > r_max;
-    let nd = recorded_node_delta();
-    if !sender_ahead { assert!(nd.is_none()); }
-    if sender_ahead && cut >= 1 { assert!(nd.is_some()); }
-    if let Some(nd) = nd {
-        let expect_reset = r_gc < s_gc && r_max < s_gc;
-        let header_only = nd.key_values.is_empty() && nd.max_version == 0;
-        let before = r.monotonic_property();
-        let st = r.apply_delta(nd, Instant { secs: 0, nanos: 0 });
-        if !header_only {
-            assert!(st != DeltaStatus::Reject);
-            assert!(r.monotonic_property() > before);
+// ---------------------------------------------------------------------------------------------
+// owner ledger and the per-copy invariants I1..I4 (DESIGN.md section 3)
+const LMAX: usize = 8;
+#[derive(Clone, Copy)]
+struct Ledger { key: [u8; LMAX], status: [u8; LMAX], v: u64 }
+fn any_ledger(vmax: u64) -> Ledger {
+    let l = Ledger { key: kani::any(), status: kani::any(), v: kani::any() };
+    kani::assume(l.v <= vmax && (vmax as usize) < LMAX);
+    let mut i = 1;
+    while i < LMAX { kani::assume(l.key[i] < 3 && l.status[i] < 3); i += 1; }
+    l
+}
+/// latest write of key k at or below the owner's max version (0 = never written)
+fn latest(l: &Ledger, k: usize) -> u64 {
+    let mut best = 0u64;
+    let mut i = 1;
+    while i < LMAX { if (i as u64) <= l.v && l.key[i] as usize == k { best = i as u64; } i += 1; }
+    best
+}
+fn inv_i1(l: &Ledger, c: &Copy3) -> bool { c.max <= l.v && c.gc <= l.v }
+fn inv_i2(l: &Ledger, c: &Copy3) -> bool {
+    let mut ok = true;
+    let mut k = 0;
+    while k < 3 {
+        if c.e[k].present {
+            let ver = c.e[k].version;
+            ok = ok && ver >= 1 && ver <= c.max && ver <= l.v && (ver as usize) < LMAX;
+            if ok { ok = l.key[ver as usize] as usize == k && l.status[ver as usize] == c.e[k].status; }
         }
-        assert!((st == DeltaStatus::ApplyAfterReset) == expect_reset || (header_only && !expect_reset));
-        kani::cover!(st == DeltaStatus::ApplyAfterReset, "reset");
-        kani::cover!(st == DeltaStatus::Apply, "apply");
+        k += 1;
+    }
+    ok
+}
+fn inv_i3(l: &Ledger, c: &Copy3) -> bool {
+    let mut ok = true;
+    let mut k = 0;
+    while k < 3 {
+        let lk = latest(l, k);
+        if lk >= 1 && lk <= c.max {
+            let exact = c.e[k].present && c.e[k].version == lk;
+            let collected = l.status[lk as usize] != 0 && lk <= c.gc && !c.e[k].present;
+            ok = ok && (exact || collected);
+        }
+        k += 1;
+    }
+    ok
+}
+fn inv_i4(l: &Ledger, c: &Copy3) -> bool {
+    let mut ok = true;
+    let mut k = 0;
+    while k < 3 {
+        let lk = latest(l, k);
+        if lk >= 1 && l.status[lk as usize] != 0 && lk <= c.gc { ok = ok && (!c.e[k].present || c.e[k].version == lk); }
+        k += 1;
+    }
+    ok
+}
+fn inv_all(l: &Ledger, c: &Copy3) -> bool { wf(c) && inv_i1(l, c) && inv_i2(l, c) && inv_i3(l, c) && inv_i4(l, c) }
+
+// ---------------------------------------------------------------------------------------------
+// RECEIVER STEP (S3, receiver half): real NodeState::apply_delta on the delta an honest sender emits
+//
+// sender copy: fully symbolic POD (presence included); receiver copy: real NodeState, presence mask concrete.
+fn rcv_step(rmask: u8, vmax: u64, own_digest: bool, with_ledger: bool) {
+    let s = any_copy3(None, vmax);
+    let (mut r, rc) = shaped_state(rmask, vmax);
+    // the digest the sender saw: the receiver's current one, or any earlier one of the same copy
+    let (dgc, dmax) = if own_digest { (rc.gc, rc.max) } else {
+        let g: u64 = kani::any(); let m: u64 = kani::any();
+        kani::assume(g <= vmax && m <= vmax && (g, m) <= (rc.gc, rc.max));
+        (g, m)
+    };
+    let accepted: usize = kani::any();
+    kani::assume(accepted <= 4);
+    let ledger = if with_ledger {
+        let l = any_ledger(vmax);
+        kani::assume(inv_all(&l, &s) && inv_all(&l, &rc));
+        Some(l)
+    } else { None };
+    let d = spec_delta(&s, dgc, dmax, accepted);
+    if !d.present { std::mem::forget(r); return; }
+    let header_only = d.n_kv == 0 && d.max == 0;
+    // known finding KF-1 (DESIGN.md 2.4): a copy that is mid-reset (watermark above max version) takes an
+    // incremental delta from a sender whose own watermark is lower
+    let kf1 = rc.gc > rc.max && s.gc < rc.gc && !header_only;
+    if want(P_KF1) { kani::assume(kf1); } else if want(P_C02) { kani::assume(!kf1); }
+    let nd = node_delta_of(&d);
+    let st = r.apply_delta(nd, T0);
+    let after = snapshot(&r);
+    kani::cover!(st == DeltaStatus::ApplyAfterReset, "reset taken");
+    kani::cover!(st == DeltaStatus::Apply && d.n_kv >= 2, "incremental delta with two key-values applied");
+    kani::cover!(st == DeltaStatus::Reject, "delta rejected");
+    kani::cover!(d.n_kv < d.n_stale, "delta truncated");
+    kani::cover!(rc.gc > rc.max, "receiver mid-reset");
+    if want(P_C14) || want(P_C01) {
+        // property's own assumption: at least one op beyond the header fits
+        if own_digest && !header_only {
+            assert!(st != DeltaStatus::Reject, "C14: delta computed from the receiver's own digest is refused");
+            assert!((st == DeltaStatus::ApplyAfterReset) == (rc.max < s.gc && rc.gc < s.gc), "C14: reset iff both frontier components are below the sender's watermark");
+            if st == DeltaStatus::ApplyAfterReset { assert!(d.from == 0, "C14: reset delta starts from version 0"); }
+            assert!((after.gc, after.max) > (rc.gc, rc.max), "C01/C14: applying the delta strictly advances (watermark, max version)");
+        }
+    }
+    if want(P_C04) {
+        assert!((after.gc, after.max) >= (rc.gc, rc.max), "C04: frontier decreased");
+        let mut k = 0;
+        while k < 3 {
+            if rc.e[k].present {
+                let wiped = st == DeltaStatus::ApplyAfterReset && after.gc > rc.gc;
+                assert!(wiped || (after.e[k].present && after.e[k].version >= rc.e[k].version), "C04: a key's version decreased or the key vanished without a reset");
+            }
+            k += 1;
+        }
+        if st == DeltaStatus::Reject { assert!(after.gc == rc.gc && after.max == rc.max, "C04: rejected delta changed the frontier"); }
+    }
+    if let Some(l) = ledger {
+        if want(P_C03) {
+            assert!(inv_i1(&l, &after), "C03: copy ran ahead of the owner");
+            assert!(inv_i2(&l, &after), "C03: copy holds an entry the owner never wrote with that version/status");
+        }
+        if want(P_C02) || want(P_KF1) {
+            let ok = inv_i3(&l, &after) && inv_i4(&l, &after);
+            if want(P_KF1) { kani::cover!(!ok, "KF-1 reproduced: stale entry installed below the watermark"); }
+            else {
+                assert!(inv_i3(&l, &after), "C02: copy not exact up to its max version");
+                assert!(inv_i4(&l, &after), "C02: entry older than a collected tombstone survives (resurrection)");
+            }
+        }
     }
     std::mem::forget(r);
 }
 
-macro_rules! rec_harness { ($name:ident, $body:expr) => {
-#[kani::proof]
-#[kani::unwind(4)]
-#[kani::stub(crate::listener::Listeners::trigger_event, noop_trigger)]
-#[kani::stub(crate::delta::DeltaSerializer::with_mtu, crate::delta::verif_delta::rec_with_mtu)]
-#[kani::stub(crate::delta::DeltaSerializer::try_add_node, crate::delta::verif_delta::rec_try_add_node)]
-#[kani::stub(crate::delta::DeltaSerializer::try_add_kv, crate::delta::verif_delta::rec_try_add_kv)]
-#[kani::stub(crate::delta::DeltaSerializer::try_set_max_version, crate::delta::verif_delta::rec_try_set_max_version)]
-#[kani::stub(crate::delta::DeltaSerializer::finish, crate::delta::verif_delta::rec_finish)]
-fn $name() { $body }
-}}
-rec_harness!(rp_000_000, run_pair_rec(0, 0, 7));
-rec_harness!(rp_001_001, run_pair_rec(1, 1, 7));
-rec_harness!(rp_011_001, run_pair_rec(3, 1, 7));
-rec_harness!(rp_111_111, run_pair_rec(7, 7, 7));
+// ---------------------------------------------------------------------------------------------
+// C04(b): every (copy, delta) pair in scope, whether or not an honest sender could have produced it
+fn any_node_delta(n_kv: usize, vmax: u64, honest_max: bool) -> (NodeDelta, [SpecKv; 3], u64) {
+    let mut kvs: Vec<KeyValueMutation> = Vec::with_capacity(3);
+    let mut spec = [SpecKv { key: 0, version: 0, status: 0 }; 3];
+    let mut last = 0u64;
+    let mut i = 0;
+    while i < 3 {
+        let key: usize = kani::any(); kani::assume(key < 3);
+        let version: u64 = kani::any();
+        let status = any_code();
+        if i < n_kv { kani::assume(version > last && version <= vmax); last = version; }
+        spec[i] = SpecKv { key, version, status };
+        kvs.push(KeyValueMutation { key: key_string(key), value: String::new(), version, status: DeletionStatusMutation::try_from(status).unwrap() });
+        i += 1;
+    }
+    unsafe { kvs.set_len(n_kv); }
+    let max: u64 = kani::any();
+    kani::assume(max <= vmax);
+    // what the wire decoder admits: strictly increasing versions; max = last version unless a SetMaxVersion op
+    // follows (only an honest serializer never emits one after key-values)
+    if honest_max && n_kv > 0 { kani::assume(max == last); }
+    let from: u64 = kani::any(); let gc: u64 = kani::any();
+    kani::assume(from <= vmax && gc <= vmax);
+    (NodeDelta { chitchat_id: xid(), from_version_excluded: from, last_gc_version: gc, key_values: kvs, max_version: max }, spec, max)
+}
+fn c04_any_delta(rmask: u8, n_kv: usize, vmax: u64) {
+    let (mut r, rc) = shaped_state(rmask, vmax);
+    let (nd, _spec, dmax) = any_node_delta(n_kv, vmax, true);
+    let (from, gc) = (nd.from_version_excluded, nd.last_gc_version);
+    let st = r.apply_delta(nd, T0);
+    let after = snapshot(&r);
+    kani::cover!(st == DeltaStatus::ApplyAfterReset, "reset taken");
+    kani::cover!(st == DeltaStatus::Apply, "incremental");
+    kani::cover!(st == DeltaStatus::Reject, "rejected");
+    assert!((after.gc, after.max) >= (rc.gc, rc.max), "C04: frontier decreased");
+    let mut k = 0;
+    while k < 3 {
+        if rc.e[k].present {
+            let wiped = st == DeltaStatus::ApplyAfterReset && after.gc > rc.gc;
+            assert!(wiped || (after.e[k].present && after.e[k].version >= rc.e[k].version), "C04: a key's version decreased or the key vanished without a strictly higher watermark");
+        }
+        k += 1;
+    }
+    if st == DeltaStatus::Reject {
+        assert!(after.gc == rc.gc && after.max == rc.max, "C04: rejected delta changed the frontier");
+        let mut k = 0;
+        while k < 3 { assert!(after.e[k].present == rc.e[k].present && after.e[k].version == rc.e[k].version, "C04: rejected delta changed a key"); k += 1; }
+    }
+    if st == DeltaStatus::ApplyAfterReset { assert!(from == 0 && gc > rc.gc && gc > rc.max && after.gc == gc, "C04: reset without a strictly higher watermark"); }
+    std::mem::forget(r);
+}
 
-fn run_sender_rec_probe(smask: u8, vmax: u64) {
+// ---------------------------------------------------------------------------------------------
+// C04(a) / C06 building block: local write API allocates max+1, same-value set is a no-op
+fn c04_local_write(mask: u8, vmax: u64) {
+    let (mut ns, c) = shaped_state(mask, vmax);
+    kani::assume(c.gc <= c.max);
+    let k: usize = kani::any(); kani::assume(k < 3);
+    let op: u8 = kani::any(); kani::assume(op < 4);
+    let same_value: bool = kani::any();
+    let value = if same_value { "" } else { "v" };
+    let now = any_instant(1_000);
+    vtime::set_now(now);
+    match op {
+        0 => ns.set(KEYS[k], value),
+        1 => ns.set_with_ttl(KEYS[k], value),
+        2 => ns.delete(KEYS[k]),
+        _ => ns.delete_after_ttl(KEYS[k]),
+    }
+    let a = snapshot(&ns);
+    let before = c.e[k];
+    let noop_expected = match op {
+        0 => before.present && before.status == 0 && same_value,
+        1 => before.present && before.status == 2 && same_value,
+        _ => !before.present,
+    };
+    kani::cover!(noop_expected, "no-op write");
+    kani::cover!(!noop_expected && op == 2, "effective delete");
+    if noop_expected {
+        assert!(a.max == c.max && a.e[k].present == before.present && a.e[k].version == before.version && a.e[k].status == before.status, "C04: ineffective write changed the state");
+    } else {
+        assert!(a.max == c.max + 1, "C04: effective write did not allocate max_version + 1");
+        assert!(a.e[k].present && a.e[k].version == c.max + 1, "C04: written key does not carry the fresh version");
+        let want_status = match op { 0 => 0, 1 => 2, 2 => 1, _ => 2 };
+        assert!(a.e[k].status == want_status, "C04/C06: wrong deletion status after write");
+    }
+    assert!(a.gc == c.gc, "C04: local write moved the watermark");
+    let mut j = 0;
+    while j < 3 { if j != k { assert!(a.e[j].present == c.e[j].present && a.e[j].version == c.e[j].version && a.e[j].status == c.e[j].status, "C04: write touched another key"); } j += 1; }
+    std::mem::forget(ns);
+}
+
+// ---------------------------------------------------------------------------------------------
+// SENDER, T-split (DESIGN.md section 3). Piece 1: the per-member decision of the real
+// compute_partial_delta_respecting_mtu (skip scheduled / not ahead, reset decision, start version), with
+// SortedStaleNodes::offer replaced by a recorder so that the serialization loop sees no stale node.
+static mut OFFERED: [(u8, u64, u64, u64); 4] = [(0, 0, 0, 0); 4];
+static mut OFFERED_N: usize = 0;
+fn rec_offer<'a>(_s: &mut SortedStaleNodes<'a>, chitchat_id: &'a ChitchatId, node_state: &'a NodeState, from_version_excluded: u64) where 'a: 'a {
+    unsafe {
+        if OFFERED_N >= 4 { kani::assume(false); }
+        OFFERED[OFFERED_N] = (chitchat_id.node_id.as_bytes()[0], from_version_excluded, node_state.last_gc_version, node_state.max_version);
+        OFFERED_N += 1;
+    }
+}
+fn mk_cluster_state() -> ClusterState {
+    let (tx, rx) = watch::channel(HashSet::default());
+    std::mem::forget(tx);
+    ClusterState::with_seed_addrs(rx)
+}
+fn snd_decision(two_members: bool) {
+    unsafe { OFFERED_N = 0; }
+    rec::rec_reset(usize::MAX);
+    let mut cs = mk_cluster_state();
+    let (xg, xm): (u64, u64) = (kani::any(), kani::any());
+    let (yg, ym): (u64, u64) = (kani::any(), kani::any());
+    cs.node_states.insert(xid(), bare_state(xg, xm));
+    if two_members { let mut y = empty_state_for(yid()); y.last_gc_version = yg; y.max_version = ym; cs.node_states.insert(yid(), y); }
+    let mut digest = Digest::default();
+    let x_in_digest: bool = kani::any();
+    let y_in_digest: bool = kani::any();
+    let (dxg, dxm): (u64, u64) = (kani::any(), kani::any());
+    let (dyg, dym): (u64, u64) = (kani::any(), kani::any());
+    if x_in_digest { digest.node_digests.insert(xid(), NodeDigest { heartbeat: Heartbeat(kani::any()), last_gc_version: dxg, max_version: dxm }); }
+    if two_members && y_in_digest { digest.node_digests.insert(yid(), NodeDigest { heartbeat: Heartbeat(kani::any()), last_gc_version: dyg, max_version: dym }); }
+    let (x, y) = (xid(), yid());
+    let mut sched: HashSet<&ChitchatId> = HashSet::default();
+    let x_sched: bool = kani::any();
+    let y_sched: bool = kani::any();
+    if x_sched { sched.insert(&x); }
+    if two_members && y_sched { sched.insert(&y); }
+    let d = cs.compute_partial_delta_respecting_mtu(&digest, 65_000, &sched);
+    std::mem::forget(d);
+    // expected offers, in member (key) order: x < y
+    let (exg, exm) = if x_in_digest { (dxg, dxm) } else { (0, 0) };
+    let (eyg, eym) = if y_in_digest { (dyg, dym) } else { (0, 0) };
+    let x_off = !x_sched && xm > exm;
+    let y_off = two_members && !y_sched && ym > eym;
+    let x_from = if exg < xg && exm < xg { 0 } else { exm };
+    let y_from = if eyg < yg && eym < yg { 0 } else { eym };
+    let n = unsafe { OFFERED_N };
+    let off = unsafe { OFFERED };
+    kani::cover!(x_off && x_from == 0 && exm > 0, "reset decided for a known member");
+    kani::cover!(x_sched, "member scheduled for deletion");
+    kani::cover!(!x_in_digest && x_off, "member unknown to the peer");
+    assert!(n == (x_off as usize) + (y_off as usize), "C07/C12/C14: wrong set of members offered (scheduled-for-deletion or not-ahead members must be skipped, others offered)");
+    let mut i = 0;
+    if x_off { assert!(off[i].0 == b'x' && off[i].1 == x_from && off[i].2 == xg && off[i].3 == xm, "C14: wrong start version for the sender-side reset decision"); i += 1; }
+    if y_off { assert!(off[i].0 == b'y' && off[i].1 == y_from && off[i].2 == yg && off[i].3 == ym, "C14: wrong start version for the sender-side reset decision (second member)"); }
+    std::mem::forget(cs); std::mem::forget(digest); std::mem::forget(sched);
+}
+
+// Piece 2: real SortedStaleNodes::offer / staleness_score: a member is kept iff it is ahead of the start version.
+fn snd_offer(mask: u8, vmax: u64) {
+    unsafe { crate::vstd::randmodel::SINGLE_MEMBER = true; }
+    let (s, c) = shaped_state(mask, vmax);
+    let id = xid();
+    let from: u64 = kani::any();
+    let mut sn = SortedStaleNodes::default();
+    sn.offer(&id, &s, from);
+    let mut n = 0;
+    for x in sn.into_iter() { n += 1; assert!(x.from_version_excluded == from, "C07: stale node carries a different start version"); }
+    assert!(n == (c.max > from) as usize, "C01/C14: a member ahead of the start version must be offered exactly once, others never");
+    std::mem::forget(s);
+}
+
+// Piece 3: real StaleNode::stale_key_values: exactly the entries above the start version, ascending.
+fn snd_content(mask: u8, vmax: u64) {
+    let (s, c) = shaped_state(mask, vmax);
+    let id = xid();
+    let from: u64 = kani::any();
+    let expect = spec_delta(&Copy3 { e: c.e, gc: 0, max: u64::MAX }, 0, from, 4);
+    let sn = StaleNode { chitchat_id: &id, node_state: &s, from_version_excluded: from };
+    let mut i = 0;
+    for (k, vv) in sn.stale_key_values() {
+        assert!(i < expect.n_stale, "C07: entry at or below the start version (or a duplicate) in the delta content");
+        assert!(k.len() == 1 && (k.as_bytes()[0] - b'a') as usize == expect.kv[i].key && vv.version == expect.kv[i].version && code_of(&vv.status) == expect.kv[i].status, "C07/C03: delta content differs from the sender's entries in version order");
+        i += 1;
+    }
+    kani::cover!(expect.n_stale == 2, "two stale entries");
+    assert!(i == expect.n_stale, "C07: a stale entry is missing from the delta content (gap)");
+    std::mem::forget(s);
+}
+
+// Piece 4 (heavy, thorough tier): the whole real compute_partial_delta_respecting_mtu with the serializer
+// recorder (h_delta.rs): recorded ops == reference model, for every truncation point.
+fn snd_full(mask: u8, vmax: u64) {
     unsafe { crate::vstd::randmodel::SINGLE_MEMBER = true; }
     let cut: usize = kani::any();
-    rec_reset(cut);
-    let s = shaped_state(smask, vmax);
-    let (s_gc, s_max) = (s.last_gc_version, s.max_version);
-    let r = bare_state(kani::any(), kani::any());
-    let (r_gc, r_max) = (r.last_gc_version, r.max_version);
-    let d = sender_delta(s, &r);
+    kani::assume(cut <= 5);
+    rec::rec_reset(cut);
+    let (s, c) = shaped_state(mask, vmax);
+    let (dgc, dmax): (u64, u64) = (kani::any(), kani::any());
+    let mut cs = mk_cluster_state();
+    cs.node_states.insert(xid(), s);
+    let mut digest = Digest::default();
+    digest.node_digests.insert(xid(), NodeDigest { heartbeat: Heartbeat(0), last_gc_version: dgc, max_version: dmax });
+    let sched: HashSet<&ChitchatId> = HashSet::default();
+    let d = cs.compute_partial_delta_respecting_mtu(&digest, 65_000, &sched);
     std::mem::forget(d);
+    let e = spec_delta(&c, dgc, dmax, cut);
     let n = unsafe { rec::REC_N };
     let ops = unsafe { rec::REC };
-    if s_max <= r_max { assert!(n == 0); }
-    else if cut >= 1 {
-        assert!(n >= 1 && ops[0].kind == rec::REC_NODE);
-        let expect_reset = r_gc < s_gc && r_max < s_gc;
-        assert!(ops[0].from == if expect_reset { 0 } else { r_max });
-        assert!(ops[0].gc == s_gc);
+    kani::cover!(e.present && e.n_kv < e.n_stale, "truncated between key-values");
+    kani::cover!(e.present && e.n_stale == 0 && e.max > 0, "SetMaxVersion for an empty tail");
+    if !e.present { assert!(n == 0, "C07/C05: ops emitted although the sender is not ahead / nothing fits"); }
+    else {
+        assert!(n >= 1 && ops[0].kind == rec::REC_NODE && ops[0].id0 == b'x' && ops[0].gc == e.gc && ops[0].from == e.from, "C14/C07: wrong member header");
+        if e.n_stale == 0 {
+            if e.max > 0 { assert!(n == 2 && ops[1].kind == rec::REC_SETMAX && ops[1].version == c.max, "C01/C03: empty tail must carry SetMaxVersion(sender max)"); }
+            else { assert!(n == 1, "C07: op after a refused SetMaxVersion"); }
+        } else {
+            assert!(n == 1 + e.n_kv, "C07: number of key-value ops differs from the version-ordered prefix that fits");
+            let mut i = 0;
+            while i < 3 {
+                if i < e.n_kv { assert!(ops[1 + i].kind == rec::REC_KV && ops[1 + i].key0 == b'a' + e.kv[i].key as u8 && ops[1 + i].version == e.kv[i].version && ops[1 + i].status == e.kv[i].status, "C07/C03: key-value op differs from the sender's entry in version order"); }
+                i += 1;
+            }
+        }
     }
+    std::mem::forget(cs); std::mem::forget(digest); std::mem::forget(sched);
+}
+
+// ---------------------------------------------------------------------------------------------
+// scalar receiver decision at full width (no keys): C14's agreement on all u64 frontiers
+fn c14_scalar() {
+    select(P_C14);
+    let s = Copy3 { e: [E { present: false, version: 0, status: 0 }; 3], gc: kani::any(), max: kani::any() };
+    let mut r = bare_state(kani::any(), kani::any());
+    let rc = snapshot(&r);
+    let accepted: usize = kani::any();
+    kani::assume(accepted <= 2);
+    let d = spec_delta(&s, rc.gc, rc.max, accepted);
+    if d.present {
+        let header_only = d.max == 0;
+        let st = r.apply_delta(node_delta_of(&d), T0);
+        let after = snapshot(&r);
+        kani::cover!(st == DeltaStatus::ApplyAfterReset, "reset taken");
+        kani::cover!(rc.gc > rc.max && st == DeltaStatus::Apply, "mid-reset receiver, incremental");
+        if !header_only {
+            assert!(st != DeltaStatus::Reject, "C14: delta computed from the receiver's own digest is refused");
+            assert!((st == DeltaStatus::ApplyAfterReset) == (rc.max < s.gc && rc.gc < s.gc), "C14: reset iff both frontier components are below the sender's watermark");
+            assert!((after.gc, after.max) > (rc.gc, rc.max), "C01/C14: no strict progress");
+            assert!(after.max == s.max, "C01: empty-tail delta must bring the copy to the sender's max version");
+        } else {
+            assert!((after.gc, after.max) >= (rc.gc, rc.max), "C04: frontier decreased");
+        }
+    } else { assert!(s.max <= rc.max || accepted == 0, "C14: sender ahead but nothing offered"); }
     std::mem::forget(r);
 }
-rec_harness!(sp_000, run_sender_rec_probe(0, 7));
-rec_harness!(sp_001, run_sender_rec_probe(1, 7));
-rec_harness!(sp_011, run_sender_rec_probe(3, 7));
-rec_harness!(sp_111, run_sender_rec_probe(7, 7));
-#[kani::proof]
-#[kani::unwind(4)]
-fn m6_stale_deref() {
-    unsafe { crate::vstd::randmodel::SINGLE_MEMBER = true; }
-    let s = shaped_state(0, 7);
-    let id = xid();
-    let mut sn = SortedStaleNodes::default();
-    let from: u64 = kani::any();
-    sn.offer(&id, &s, from);
-    let mut n = 0;
-    for x in sn.into_iter() { n += 1; assert!(x.node_state.max_version > from); assert!(x.stale_key_values().count() == 0); }
-    assert!(n <= 1);
-    std::mem::forget(s);
+
+// ---------------------------------------------------------------------------------------------
+// C20 / C04: ClusterState::apply_delta: returned flag == "some copy was reset"; runtime assert :602 unreachable
+fn c20_cluster_apply(rmask: u8, vmax: u64, known: bool) {
+    let mut cs = mk_cluster_state();
+    let c = any_copy3(Some(rmask), vmax);
+    if known { cs.node_states.insert(xid(), build_state(&c, T0)); }
+    let s = any_copy3(None, vmax);
+    let accepted: usize = kani::any();
+    kani::assume(accepted <= 4);
+    let d = spec_delta(&s, c.gc, c.max, accepted);
+    let mut delta = Delta::default();
+    if d.present { delta.node_deltas.push(node_delta_of(&d)); }
+    let flag = cs.apply_delta(delta);
+    let expect_reset = known && d.present && c.gc < d.gc && c.max < d.gc && d.from == 0;
+    kani::cover!(flag, "reset reported");
+    kani::cover!(d.present && !flag && known, "incremental or rejected");
+    assert!(flag == expect_reset, "C20: reset flag differs from 'a copy was wiped and restarted from version 0'");
+    if known {
+        let a = snapshot(cs.node_states.get(&xid()).unwrap());
+        if flag { assert!(a.gc == d.gc && a.gc > c.gc, "C20: reset reported without a strictly higher watermark"); }
+        assert!((a.gc, a.max) >= (c.gc, c.max), "C04: frontier decreased");
+    } else { assert!(cs.node_states.len() == 0, "C03: delta about an unknown member created a copy"); }
+    std::mem::forget(cs);
 }
-#[kani::proof]
-#[kani::unwind(4)]
-fn m6a_deref_only() {
-    unsafe { crate::vstd::randmodel::SINGLE_MEMBER = true; }
-    let s = shaped_state(0, 7); let id = xid();
-    let mut sn = SortedStaleNodes::default();
-    let from: u64 = kani::any();
-    sn.offer(&id, &s, from);
-    let mut n = 0;
-    for x in sn.into_iter() { n += 1; assert!(x.node_state.max_version > from); }
-    assert!(n <= 1);
-    std::mem::forget(s);
-}
-#[kani::proof]
-#[kani::unwind(4)]
-fn m6b_direct_stale_kvs() {
-    let s = shaped_state(0, 7);
-    let from: u64 = kani::any();
-    assert!(s.stale_key_values(from).count() == 0);
-    std::mem::forget(s);
-}
-#[kani::proof]
-#[kani::unwind(4)]
-fn m6c_direct_sorted() {
-    let s = shaped_state(0, 7); let id = xid();
-    let from: u64 = kani::any();
-    let sn = StaleNode { chitchat_id: &id, node_state: &s, from_version_excluded: from };
-    assert!(sn.stale_key_values().count() == 0);
-    std::mem::forget(s);
-}
-#[kani::proof]
-#[kani::unwind(4)]
-fn m6d_direct_sorted_011() {
-    let s = shaped_state(3, 7); let id = xid();
-    let from: u64 = kani::any();
-    let sn = StaleNode { chitchat_id: &id, node_state: &s, from_version_excluded: from };
-    let mut last = 0;
-    for (k, v) in sn.stale_key_values() { assert!(v.version > last && v.version > from); last = v.version; }
-    std::mem::forget(s);
-}
+
+// ---------------------------------------------------------------------------------------------
+// harness declaration macros (instances are generated per run by /verif/vlib/plan.py)
+macro_rules! h_plain { ($name:ident, $unw:expr, $body:expr) => {
+    #[kani::proof]
+    #[kani::unwind($unw)]
+    #[kani::stub(crate::listener::Listeners::trigger_event, noop_trigger)]
+    fn $name() { $body }
+}}
+macro_rules! h_rec { ($name:ident, $unw:expr, $body:expr) => {
+    #[kani::proof]
+    #[kani::unwind($unw)]
+    #[kani::stub(crate::listener::Listeners::trigger_event, noop_trigger)]
+    #[kani::stub(crate::delta::DeltaSerializer::with_mtu, crate::delta::verif_delta::rec_with_mtu)]
+    #[kani::stub(crate::delta::DeltaSerializer::try_add_node, crate::delta::verif_delta::rec_try_add_node)]
+    #[kani::stub(crate::delta::DeltaSerializer::try_add_kv, crate::delta::verif_delta::rec_try_add_kv)]
+    #[kani::stub(crate::delta::DeltaSerializer::try_set_max_version, crate::delta::verif_delta::rec_try_set_max_version)]
+    #[kani::stub(crate::delta::DeltaSerializer::finish, crate::delta::verif_delta::rec_finish)]
+    fn $name() { $body }
+}}
+macro_rules! h_rec_offer { ($name:ident, $unw:expr, $body:expr) => {
+    #[kani::proof]
+    #[kani::unwind($unw)]
+    #[kani::stub(crate::listener::Listeners::trigger_event, noop_trigger)]
+    #[kani::stub(crate::state::SortedStaleNodes::offer, rec_offer)]
+    #[kani::stub(crate::delta::DeltaSerializer::with_mtu, crate::delta::verif_delta::rec_with_mtu)]
+    #[kani::stub(crate::delta::DeltaSerializer::try_add_node, crate::delta::verif_delta::rec_try_add_node)]
+    #[kani::stub(crate::delta::DeltaSerializer::try_add_kv, crate::delta::verif_delta::rec_try_add_kv)]
+    #[kani::stub(crate::delta::DeltaSerializer::try_set_max_version, crate::delta::verif_delta::rec_try_set_max_version)]
+    #[kani::stub(crate::delta::DeltaSerializer::finish, crate::delta::verif_delta::rec_finish)]
+    fn $name() { $body }
+}}
